@@ -75,6 +75,7 @@ func coResume(L *LState) int {
 	} else {
 		nargs := L.GetTop() - 1
 		L.XMoveTo(th, nargs)
+		th.padResumeValues(nargs)
 	}
 	top := L.GetTop()
 	threadRun(th)
